@@ -110,17 +110,17 @@ PROPS.update({
         explanation="theorems: connect_iff (object iff ping and id answered and id of a supported class, via C12.list_by_class for ALL ids), connect_product, connect_err_no_object, connect_no_panic, connect_order (driver model: :154 then, only if answered, :451)"),
 })
 
-BLE = dict(driver="driverble", lake_targets=["driverble"], tools=["extract", "ble2lean", "harness"], gen=["tables", "ble"], oracle_prefixes=["BS "])
+BLE = dict(driver="driverble", lake_targets=["driverble", "driverblespec"], tools=["extract", "ble2lean", "harness"], gen=["tables", "ble"], oracle_prefixes=["BS "])
 T2 = "tools/ble2lean (T2): the translator of bleparser's Decode* functions (go/parser + go/types; symbolic execution of the accepted statement subset, bounds checks / wrap-around / two's complement made explicit); validated on every run by executing its output against the real decoders on the same inputs, but a translator bug masked on all generated inputs would be trusted; a construct outside the subset is a broken tie"
 SPEC_BLE = "Victron/Spec/BleLayouts.lean: the 13 layout tables transcribed from the layout comments in /repo/bleparser (DESIGN.md Appendix A); where the comment is silent the table follows the decoder's established behaviour (NaN for aux raw 0x7FFF/0xFFFF, unselected DcEnergyMeter aux fields 0.0, VE.Bus state/error bytes unvalidated)"
 
 PROPS.update({
-    "C07": dict(BLE, suites=["c07"], trivial=r"^err:too-short$",
+    "C07": dict(BLE, suites=["c07", "c07spec@driverblespec"], trivial=r"^err:too-short$",
         rule="per decoder and field: every raw value up to 10 bits (14 in thorough), stratified samples (boundaries, single bits, NA codes, random) above, each in three contexts of the remaining bits (all-zero, all-one, random; enum bytes valid); all 256 values of every enumerated byte; all aux modes x aux raws; random records incl. longer ones; the repository's own test vectors. Each input is answered three ways: real decoder = translated decoder (BD line, validates T2) = layout specification (BS line: a difference is reported as a concrete violation)",
         trusted_base=[KERNEL, HARNESS, T1, T2, SPEC_BLE, "bin/check's float realisation of raw*mul/div+off"],
         assumptions=["float conversion is symbolic in the theorems (raw integer + scale/offset); the IEEE result is formed and compared bit-exactly by the comparer"],
         explanation="theorems: acCharger … veBus (13 x `Gen.Ble.decodeX inp spare = BleSpec.decode layoutX inp` for every input, every length, every spare capacity), decoders_covered, all_conform, layouts_wellformed, field_locality, na_exact, sx_eq_if, enum_rejection"),
-    "C08": dict(BLE, suites=["c08"], trivial=r"^$",
+    "C08": dict(BLE, suites=["c08", "c08spec@driverblespec"], trivial=r"^$",
         rule="13 decoders x lengths 0..64 x contents {zeros with valid enums, all-ones, random} x {cap == len, spare capacity 1..8 filled with 00/FF/random}; complete records + every suffix length 1..16 (00/FF/random); real panics are recovered and compared with the translated decoder's explicit panic outcome; the Go oracle states too-short-iff / no panic / spare independence / suffix independence directly",
         trusted_base=[KERNEL, HARNESS, T1, T2, SPEC_BLE],
         assumptions=["Go's slice semantics (bounds against cap for slice expressions, against len for index expressions and binary.LittleEndian) as encoded by the translator"],
